@@ -75,6 +75,15 @@ CHECKS = {
             "Design: all interleavings of runner, 2-3 consumers (reading / stopped), spawn and despawn at every point, 2-4 messages, "
             "capacity 1: order, exactly-once, no send on closed channel, delivered-while-connected, despawn completes. Code: the TLC "
             "lasso forced on the real fan-out in several shapes, seeded random life-cycle histories, relay with concurrent emitters."),
+    "C17": ("model_checking", "DESIGN.md 5/C17",
+            "TLA+ spec of the frame as a function of playing state, note tracker, MIDI-input tracker and LED layout (spec/Led.tla on top "
+            "of DeviceSys); TLC enumerates the bounded model (MC_led), tours over every transition are replayed on the real device whose "
+            "LED goroutine talks to a fake OpenRGB server, every received frame is judged by TLC (spec/LedTrace.tla)",
+            "trusted: TLC, the fake OpenRGB server, the two-frames-later rule for attributing a frame to a step; palettes that the "
+            "statement leaves to the implementation are judged for consistency/distinctness only; the mapping literally named Control "
+            "(always white) is a named deviation and not used",
+            "All reachable combinations of octave/channel/mapping, held key, MIDI-input notes on two channels (Note Off, velocity 0, panic "
+            "clearing) of the bounded model x three LED layouts (factory order, reversed, sparse with an action key at index 0), final red frame."),
     "C18": ("model_checking", "DESIGN.md 5/C18",
             "TLA+ spec of the upkeep walk with one action per file-system mutation and a crash action (spec/Upkeep.tla) model-checked "
             "exhaustively by TLC; the real updateHIDIConfiguration run under strace on prepared trees with SIGKILL injected at "
@@ -123,7 +132,7 @@ def main():
         },
         "engines": [
             {"name": "device-engine", "path": "spec/Device.tla spec/DeviceSys.tla spec/DeviceTrace.tla spec/MC_device.tla",
-             "serves_properties": [i for i in ids if i in CHECKS and i in ("C01", "C02", "C03", "C04", "C05", "C06", "C07", "C08", "C13", "C14")],
+             "serves_properties": [i for i in ids if i in CHECKS and i in ("C01", "C02", "C03", "C04", "C05", "C06", "C07", "C08", "C13", "C14", "C16", "C17")],
              "kind_free_text": "TLC exhaustive model checking + tours + trace validation of the per-device engine"},
             {"name": "case-oracle", "path": "spec/CaseTrace.tla spec/NoteNames.tla spec/Loader.tla spec/Discovery.tla spec/ConfigFile.tla",
              "serves_properties": [i for i in ids if i in CHECKS and i in ("C09", "C10", "C11", "C12", "C15", "C18", "C19", "C20")],
@@ -142,7 +151,7 @@ def main():
                 "thorough_cmd": "./check %s thorough" % i,
                 "evidence_file": "evidence/%s.json" % i,
                 "replay_cmd_template": "./check %s --replay {path}" % i,
-                "engine": "device-engine" if i in ("C01", "C02", "C03", "C04", "C05", "C06", "C07", "C08", "C13", "C14") else "case-oracle",
+                "engine": "device-engine" if i in ("C01", "C02", "C03", "C04", "C05", "C06", "C07", "C08", "C13", "C14", "C16", "C17") else "case-oracle",
                 "level_claimed": {"category": level, "text": text, "design_ref": ref},
                 "level_note": note,
                 "technique": tech,
